@@ -110,6 +110,16 @@ def narrow(ip, st, v):
     for k in range(7):
         if ip.feasible(st, tm.Eq(tag, tm.Int(k))):
             feas.append(k)
+    if len(feas) > 1 and any(tm.has_quantifier(c) for c in st.pc):
+        # quantified facts (all(...) results) may decide the tag: spend more effort before forking
+        from . import solve
+        keep = []
+        for k in feas:
+            q = tm.Eq(tag, tm.Int(k))
+            r = solve.z3_check(tm.cone(list(st.pc), [q], st.defs) + [q], 1500)
+            if r.verdict != "unsat":
+                keep.append(k)
+        feas = keep
     if ip.feasible(st, tm.Or(tm.Lt(tag, tm.Int(0)), tm.Gt(tag, tm.Int(6)))):
         st.assume(tm.And(tm.Le(tm.Int(0), tag), tm.Le(tag, tm.Int(6))))
     for n, k in enumerate(feas):
